@@ -467,9 +467,11 @@ class ReleaseMonitor:
         self.last_ended[tid] = nid
 
     def on_completed(self, scope, failed=False):
-        if not (scope and isinstance(scope[-1], str) and scope[-1].startswith("model.build.")):
-            return
         tid = self.sim.current.tid
+        if scope and scope[-1] in ("getitem", "_operator.getitem") and len(scope) >= 3 and scope[-3] == "cfn":
+            self.last_ended[tid] = scope[-2]       # (no call events of its own: the scope names the node)
+        elif not (scope and isinstance(scope[-1], str) and scope[-1].startswith("model.build.")):
+            return
         nid = self.last_ended.pop(tid, None)
         if failed:
             # the failing call is still unwinding (its frames are alive inside the except block): it has
@@ -526,8 +528,10 @@ class ReleaseMonitor:
 
     def conclude(self, retained_call):
         if self.violation is None:
+            cfn = {n["id"] for n in self.world["nodes"] if n.get("cfn")}
             for p, failed, v in self.candidates:
-                if retained_call not in failed:
+                # (a failure inside a C-implemented callable has no frame that could hold the arguments)
+                if retained_call not in failed or retained_call in cfn:
                     v["msg"] += f" (failed consumers {sorted(failed)}; the failure kept by run is call {retained_call})"
                     self.violation = v
                     break
@@ -580,6 +584,14 @@ def gen_c16(seed, tier):
             if rng.random() < 0.6:
                 calls[str(c)] = dict(exc=rng.choice(["E1", "E2", "B1", "F2", "SystemExit"]))
         op["faults"] = dict(calls=calls)
+        if rng.random() < 0.5:
+            # consumers implemented in C that fail (no Python frame of theirs is part of the failure)
+            producers = [n["id"] for n in world["nodes"] if n["kind"] == "call" and n.get("ret", "val") == "val"]
+            for pr in rng.sample(producers, min(len(producers), rng.randrange(1, 3))):
+                cid = max(n["id"] for n in world["nodes"]) + 1
+                world["nodes"].append(dict(id=cid, kind="call", cfn=True, args=[["n", pr]], kwargs=[], deps=[], scope=[],
+                                           dur=0.0, ret="val", fname="getitem", depth=0))
+            op["faults"]["cfn"] = True
         op["cfg"].update(max_errors=None, no_keep_exc=True, max_workers=rng.choice([1, 2, 3]))
         # make everything needed, so that the failing consumers do run
         # (a final call that merely depends on all of them, without consuming - and so retaining - any value)
